@@ -18,5 +18,7 @@
                  'ns_wf (xml_prefix_in_scope only): Namespaces-in-XML well-formedness of the names used '
                  '(prefixes bound in scope to non-empty URIs, xmlns/xml not redeclared, no URI literally '
                  '"xmlns", no prefixed attribute / unprefixed element named "xmlns")',
-                 'uri_single_prefix (xml_prefix_in_scope only): no namespace URI is bound to two different '
-                 'prefixes in the document - known finding F11 outside it (xml_prefix_refuted)']}
+                 'lastwins_ok (xml_prefix_in_scope only): at every element / prefixed attribute the '
+                 "reader's document-wide last-declaration-wins URI->prefix map holds the prefix written "
+                 'there (decidable on the document; its complement is the known class F11, '
+                 'xml_prefix_refuted); xml_prefix_in_scope_single states the same under uri_single_prefix']}
